@@ -263,6 +263,49 @@ func (p *projector) ty(t *sysl.Type) lazy {
 			}
 			return fmt.Sprintf("(STuple %s %s %s)", opt, common.GBool(mapKey), common.GList(s))
 		}
+	case *sysl.Type_Relation_:
+		// MapType: an attribute that is a TypeRef goes through convertTableRef (Context.Appname.Part[0], Ref.Path[0])
+		type fl struct {
+			n string
+			t lazy
+		}
+		var fs []fl
+		for n, ft := range x.Relation.GetAttrDefs() {
+			if tr, ok := ft.Type.(*sysl.Type_TypeRef); ok {
+				parts, path := tr.TypeRef.GetContext().GetAppname().GetPart(), tr.TypeRef.GetRef().GetPath()
+				if len(parts) == 0 || len(path) == 0 {
+					p.unsupported = "relation attribute reference without context or path (convertTableRef indexes [0])"
+					continue
+				}
+				if strings.Contains(parts[0], ".") || strings.Contains(path[0], ".") {
+					p.unsupported = "'.' inside a table reference"
+				}
+				ap, ty, fo := p.n(parts[0]), p.n(path[0]), common.GBool(ft.GetOpt())
+				fs = append(fs, fl{p.n(n), func(nt *nameTable) string { return fmt.Sprintf("(STabRef %s %s %s)", fo, nt.id(ap), nt.id(ty)) }})
+				continue
+			}
+			fs = append(fs, fl{p.n(n), p.ty(ft)})
+		}
+		sort.Slice(fs, func(i, j int) bool { return fs[i].n < fs[j].n })
+		return func(nt *nameTable) string {
+			var s []string
+			for _, f := range fs {
+				s = append(s, fmt.Sprintf("(%s,%s)", nt.id(f.n), f.t(nt)))
+			}
+			return fmt.Sprintf("(SRel %s %s)", opt, common.GList(s))
+		}
+	case *sysl.Type_OneOf_:
+		var alts []lazy
+		for _, at := range x.OneOf.GetType() {
+			alts = append(alts, p.ty(at))
+		}
+		return func(nt *nameTable) string {
+			var s []string
+			for _, a := range alts {
+				s = append(s, a(nt))
+			}
+			return fmt.Sprintf("(SUnion %s %s)", opt, common.GList(s))
+		}
 	}
 	p.unsupported = fmt.Sprintf("type kind %T", t.Type)
 	return func(*nameTable) string { return "(SNoType false)" }
